@@ -336,8 +336,81 @@ def r11_closure(text, log, spec):
     return text[:mt.end() - 1] + head + "{ " + body + " }" + text[end:]
 
 
+def r25_hashmap_iter_mut(text, log):
+    """R25: `for (K, V) in M.iter_mut() {B}` over a HashMap with Copy values ->
+    `let keys__ = hashmap_keys(&M); let mut i__ = 0; while i__ < keys__.len() { let K = &keys__[i__];
+     let mut V__ = *M.get(K).unwrap(); B[*V := V__, V.f( := V__.f(, V op= := V__ op=]; M.insert(*K, V__); i__ += 1; }`
+    (B must not contain `continue`/`break` and must use V only as `*V`, `V.method(`, `V op= ..`: checked).
+    ASSUMED: iter_mut visits every entry exactly once and gives access to the value only."""
+    m = L.mask(text)
+    mt = re.search(r"\bfor\s*\(\s*(\w+)\s*,\s*(mut\s+)?(\w+)\s*\)\s*in\s*([\w.]+)\.iter_mut\(\)\s*\{", m)
+    if not mt:
+        raise Lost("R25: no `for (k, v) in M.iter_mut()` loop")
+    k, v, mp = mt.group(1), mt.group(3), mt.group(4)
+    if k == "_":
+        k = "k__"
+    bo = mt.end() - 1
+    bc = L.match_close(m, bo)
+    body, mbody = text[bo + 1:bc], m[bo + 1:bc]
+    if re.search(r"\b(continue|break)\b", mbody):
+        raise Lost("R25: loop body contains continue/break")
+    out, last = [], 0
+    for x in re.finditer(r"(\*\s*)?\b" + re.escape(v) + r"\b", mbody):
+        after = mbody[x.end():x.end() + 4]
+        deref = x.group(1) is not None
+        if deref or after.startswith(".") or re.match(r"\s*[-+*/]=", after):
+            out.append(body[last:x.start()]); out.append(v + "__"); last = x.end()
+        else:
+            raise Lost(f"R25: loop variable {v} used in an unsupported way near {body[max(0, x.start() - 20):x.end() + 20]!r}")
+    out.append(body[last:])
+    head = (f"let keys__ = hashmap_keys(&{mp}); let mut i__: usize = 0;\n        while i__ < keys__.len() {{ let {k} = &keys__[i__]; "
+            f"let mut {v}__ = *{mp}.get({k}).unwrap(); {{")
+    tail = f"    }};\n            {mp}.insert(*{k}, {v}__); i__ += 1;\n        "
+    log.append({"rule": "R25-hashmap-iter-mut", "before": text[mt.start():mt.end()], "after": head + " ... " + tail.strip() + " }"})
+    return text[:mt.start()] + head + "".join(out) + tail + text[bc:]
+
+
+def r25b_hashmap_into_iter(text, log):
+    """R25b: `for (K, V) in M {B}` consuming a HashMap with Copy keys/values ->
+    `let entries__ = hashmap_into_entries(M); let mut i__ = 0; while i__ < entries__.len() { let K = entries__[i__].0; let V = entries__[i__].1; B; i__ += 1; }`
+    ASSUMED: into_iter yields every entry exactly once."""
+    m = L.mask(text)
+    mt = re.search(r"\bfor\s*\(\s*(\w+)\s*,\s*(\w+)\s*\)\s*in\s*([\w.]+)\s*\{", m)
+    if not mt:
+        raise Lost("R25b: no `for (k, v) in M` loop")
+    k, v, mp = mt.group(1), mt.group(2), mt.group(3)
+    bo = mt.end() - 1
+    bc = L.match_close(m, bo)
+    if re.search(r"\b(continue|break)\b", m[bo:bc]):
+        raise Lost("R25b: loop body contains continue/break")
+    head = (f"let entries__ = hashmap_into_entries({mp}); let mut i__: usize = 0;\n        while i__ < entries__.len() {{ "
+            f"let {k} = entries__[i__].0; let {v} = entries__[i__].1;")
+    log.append({"rule": "R25b-hashmap-into-iter", "before": text[mt.start():mt.end()], "after": head + " ... i__ += 1; }"})
+    return text[:mt.start()] + head + text[bo + 1:bc] + "    i__ += 1;\n        " + text[bc:]
+
+
+def r25c_hashmap_retain(text, log):
+    """R25c: `M.retain(|_, V| COND);` over a HashMap with Copy values ->
+    `let keys__ = hashmap_keys(&M); let mut i__ = 0; while i__ < keys__.len() { let k__ = &keys__[i__];
+     let v__ = *M.get(k__).unwrap(); let V = &v__; if !(COND) { M.remove(k__); } i__ += 1; }`
+    ASSUMED: retain visits every entry exactly once and removes exactly those for which the closure returns false."""
+    m = L.mask(text)
+    mt = re.search(r"([\w.]+)\.retain\(\s*\|\s*_\s*,\s*(\w+)\s*\|", m)
+    if not mt:
+        raise Lost("R25c: no `M.retain(|_, v| ..)` call")
+    mp, v = mt.group(1), mt.group(2)
+    po = m.index("(", mt.start(0) + len(mp))
+    pc = L.match_close(m, po)
+    cond = text[mt.end():pc].strip()
+    semi = m.index(";", pc)
+    new = (f"let keys__ = hashmap_keys(&{mp}); let mut i__: usize = 0;\n        while i__ < keys__.len() {{ let k__ = &keys__[i__]; "
+           f"let v__ = *{mp}.get(k__).unwrap(); let {v} = &v__;\n            if !({cond}) {{ {mp}.remove(k__); }}\n            i__ += 1;\n        }}")
+    log.append({"rule": "R25c-hashmap-retain", "before": text[mt.start():semi + 1], "after": new})
+    return text[:mt.start()] + new + text[semi + 1:]
+
+
 STRUCTURAL = {"R11c": r11_closure, "R14": r14_all, "R16m": r16_drop_methods, "R12d": r12_debug_assert, "R5": r5_for_bytes, "R7": r7_mut_self, "R0": r0_named_return, "R4": r4_format, "R12": r12_unreachable,
-              "R6": r6_for_enumerate, "R10": r10_drop_loop}
+              "R6": r6_for_enumerate, "R10": r10_drop_loop, "R25": r25_hashmap_iter_mut, "R25b": r25b_hashmap_into_iter, "R25c": r25c_hashmap_retain}
 
 
 def apply_rewrites(text, rewrites, log):
@@ -357,6 +430,12 @@ def apply_rewrites(text, rewrites, log):
             new = text.replace(pat, repl)
             if n:
                 log.append({"rule": rule, "before": pat, "after": repl, "times": n})
+        if count == "opt":
+            # optional statement: absent is not a lost anchor, the contract then has to hold without it
+            if n > 1:
+                raise Lost(f"rewrite {rule}: pattern {pat!r} matched {n} times, expected at most 1")
+            text = new
+            continue
         if count is not None and n != count:
             raise Lost(f"rewrite {rule}: pattern {pat!r} matched {n} times, expected {count}")
         if count is None and n == 0:
